@@ -390,8 +390,9 @@ fn random_limit(rng: &mut Rng, p: &Pos, budget: u8, l: &mut Local) -> Limit {
     let men = p.b.iter().flatten().count();
     if p.b.iter().flatten().filter(|pc| pc.k == Kind::Q).count() >= 8 {
         // the first iteration alone is expensive here: limits that expire inside it
+        // (never a bare depth limit here: depth 1 alone can be tens of millions of nodes)
         return match rng.below(4) {
-            0 => Limit::Depth(1 + rng.below(2) as u8),
+            0 => Limit::DepthStop(1 + rng.below(2) as u8, 2 + rng.below(30)),
             1 => {
                 l.feat("limit_movetime");
                 Limit::MoveTime(1 + rng.below(3))
@@ -731,6 +732,12 @@ pub fn run_c12(args: &Args, seed: u64, tier: &str, report: &Report) -> String {
         let mut rng = Rng::new(seed, 10_000 + shard as u64);
         for i in 0..cases / 16 {
             let Some(mut case) = gen_case(&mut rng, &roots, budget, &mut l) else { continue };
+            // quiescence-heavy roots are for the limit-expiry workloads; a fixed-depth search of one can take
+            // minutes, and determinism does not need them
+            case.steps.retain(|st| st.fen.split(' ').next().unwrap_or("").chars().filter(|c| *c == 'q' || *c == 'Q').count() < 8);
+            if case.steps.is_empty() {
+                continue;
+            }
             // depth-limited searches only: a time limit makes the node count depend on the clock
             for st in case.steps.iter_mut() {
                 if !matches!(st.limit, Limit::Depth(_)) {
